@@ -274,6 +274,10 @@ row("class_template", [{"decl": "template<typename T> class {n}_vec",
                                          {"decl": "T &at(size_t n)"}]}],
     langs=CXX, wraps=CF, doc="templates.yaml vector; docs/templates.rst")
 row("callback", "int {n}(int (*incr)(int) +external)", wraps=CF, doc="clibrary.yaml callback1; docs/fortran.rst")
+row("callback_overload", [{"decl": "int {n}(int (*get)(int) +external, int a)"},
+                          {"decl": "int {n}(double (*get)(double x) +external, double a)"},
+                          {"decl": "void {n}b(void (*report)(int code) +external)"}],
+    langs=CXX, wraps=CF, doc="docs/fortran.rst callbacks (abstract interfaces) + overloads: two overloads whose callback arguments have the same name")
 row("global_var", "extern int {n}_flag;", wraps=("c", "fortran", "python"), doc="tutorial.yaml global_flag")
 
 
